@@ -10,6 +10,7 @@
 //!   `N <path hex> <normalize_path hex> <normalize_path_with_current_dir hex>`
 //!   `G <require hex> <source hex> <get_relative_path(.., true)> <write_require_path(require)>`
 //!   `E <cur cfg> <tgt cfg> <layout> <mask> <src hex> <literal hex> <hook literal> <rule literal> <process literal>`
+//!   `D <cfg> <layout> <mask> <src hex> <literal hex> <find_require by hook> <files whose marker is in the bundle made by process>`
 //! results: `<hex path>`, `!nf` (not found), `!unk` (unknown source), `!empty`, `!none`, `!err<hex message>`; `-` = empty string / not run.
 
 use std::collections::BTreeMap;
@@ -323,31 +324,20 @@ fn run_e2e(current: &Cfg, target: &Cfg, layout: &Layout, mask: usize, src: &str,
             Err(err) => format!("!err{}", hex(err.as_bytes())),
         }
     };
-    // (3) the front door: configuration file discovered in the working directory
-    let by_process = if current.project == Some("") && target.project == Some("") {
+    // (3) the front door: configuration file discovered in the working directory, or given with
+    //     `with_configuration_at` when the configuration location is another directory
+    let by_process = if current.project.is_some() && current.project == target.project {
         let resources = resources_for(layout, mask);
         resources.write(src, &code).unwrap();
-        resources
-            .write(
-                ".darklua.json",
-                &format!(r#"{{"rules":[{}]}}"#, rule_json(current, target)),
-            )
-            .unwrap();
-        let options = Options::new(src).with_output("out.lua");
-        match darklua_core::process(&resources, options) {
-            Ok(tree) => match tree.result() {
-                Ok(()) => match resources.get("out.lua") {
-                    Ok(output) => match Parser::default().parse(&output) {
-                        Ok(block) => first_require_literal(&block)
-                            .map(|s| h(&s))
-                            .unwrap_or("!lost".to_owned()),
-                        Err(_) => "!unparsable".to_owned(),
-                    },
-                    Err(_) => "!nooutput".to_owned(),
-                },
-                Err(_) => "!processerr".to_owned(),
+        let config = format!(r#"{{"rules":[{}]}}"#, rule_json(current, target));
+        match run_process(&resources, current.project.unwrap(), &config, src) {
+            Ok(output) => match Parser::default().parse(&output) {
+                Ok(block) => first_require_literal(&block)
+                    .map(|s| h(&s))
+                    .unwrap_or("!lost".to_owned()),
+                Err(_) => "!unparsable".to_owned(),
             },
-            Err(_) => "!processerr".to_owned(),
+            Err(e) => e,
         }
     } else {
         "~".to_owned()
@@ -363,6 +353,69 @@ fn run_e2e(current: &Cfg, target: &Cfg, layout: &Layout, mask: usize, src: &str,
         h(&by_hook),
         by_rule,
         by_process
+    );
+}
+
+/// `darklua_core::process` of `src` into `out.lua` with the configuration file in `location`
+fn run_process(resources: &Resources, location: &str, config: &str, src: &str) -> Result<String, String> {
+    let options = if location.is_empty() {
+        resources.write(".darklua.json", config).unwrap();
+        Options::new(src).with_output("out.lua")
+    } else {
+        let config_path = Path::new(location).join(".darklua.json");
+        resources.write(&config_path, config).unwrap();
+        Options::new(src)
+            .with_output("out.lua")
+            .with_configuration_at(config_path)
+    };
+    let result = std::panic::catch_unwind(std::panic::AssertUnwindSafe(|| {
+        match darklua_core::process(resources, options) {
+            Ok(tree) => match tree.result() {
+                Ok(()) => resources.get("out.lua").map_err(|_| "!nooutput".to_owned()),
+                Err(_) => Err("!processerr".to_owned()),
+            },
+            Err(_) => Err("!processerr".to_owned()),
+        }
+    }));
+    result.unwrap_or(Err("!panic".to_owned()))
+}
+
+/// bundling through the front door: which files' marker strings end up in the bundle
+fn run_bundle(cfg: &Cfg, layout: &Layout, mask: usize, src: &str, literal: &str) {
+    let code = format!("local m = require({})\nreturn m\n", lua_quote(literal));
+    let resources = resources_for(layout, mask);
+    resources.write(src, &code).unwrap();
+    let mode = cfg.mode();
+    let by_hook = res_path(&find(cfg, &mode, src, literal, &resources));
+    let resources = resources_for(layout, mask);
+    resources.write(src, &code).unwrap();
+    let config = format!(r#"{{"rules":[],"bundle":{{"require_mode":{}}}}}"#, cfg.json());
+    let bundled = match run_process(&resources, cfg.project.unwrap_or(""), &config, src) {
+        Ok(output) => {
+            let markers: Vec<String> = layout
+                .optional
+                .iter()
+                .chain(layout.base.iter())
+                .filter(|f| output.contains(&format!("{:?}", f)) || output.contains(&format!("'{}'", f)))
+                .map(|f| h(f))
+                .collect();
+            if markers.is_empty() {
+                "-".to_owned()
+            } else {
+                markers.join(",")
+            }
+        }
+        Err(e) => e,
+    };
+    println!(
+        "D {} {} {} {} {} {} {}",
+        cfg.id,
+        layout.id,
+        mask,
+        h(src),
+        h(literal),
+        by_hook,
+        bundled
     );
 }
 
@@ -394,6 +447,12 @@ fn cfgs() -> Vec<Cfg> {
         c("U6", true, "init", Some(""), &[("@pkg", "pkg")], true),
         c("U7", true, "init", Some(""), &[], false),
         c("U8", true, "init", Some(""), &[("@pkg", "./pkg")], false),
+        // the darklua configuration is in `project/` (an ancestor of the sources) ...
+        c("P9", false, "init", Some("project"), &[("vendor", "vendor"), ("@cfg", "./packages")], true),
+        c("U9", true, "init", Some("project"), &[("@vendor", "vendor"), ("@cfg", "./packages")], true),
+        // ... or in the working directory, for the same files
+        c("PA", false, "init", Some(""), &[("vendor", "project/vendor"), ("@cfg", "project/packages")], true),
+        c("UA", true, "init", Some(""), &[("@vendor", "project/vendor"), ("@cfg", "project/packages")], true),
     ]
 }
 
@@ -436,6 +495,20 @@ fn layouts() -> Vec<Layout> {
         &["src/pkg/init.spec.luau", "src/pkg/init.server.luau", "src/pkg/init.luau", "src/pkg/index.spec.lua",
           "src/pkg/index.lua", "src/a.lua", "init.spec.luau"],
     ));
+    // a project in a sub-directory: `sources` are relative to the configuration location, .luaurc
+    // aliases to the directory of their .luaurc (three of them, at different depths)
+    let mut project = l(
+        "LP",
+        &["project/packages/lib.lua", "project/project/packages/lib.lua", "packages/lib.lua", "project/vendor/lib.lua",
+          "vendor/lib.lua", "project/src/deep/local/lib.luau", "project/src/packages/lib.lua"],
+        &["project/src/main.lua", "project/src/init.luau", "project/src/deep/mod.lua", "project/src/deep/init.lua", "tools/run.lua"],
+    );
+    project.rc = vec![
+        ("project", vec![("pkg", "packages"), ("up", "../vendor")]),
+        ("project/src/deep", vec![("pkg", "local"), ("here", ".")]),
+        ("", vec![("pkg", "packages"), ("rootonly", "vendor")]),
+    ];
+    list.push(project);
     // .luaurc aliases
     let mut with_rc = l(
         "LR",
@@ -469,9 +542,17 @@ const INIT_LIKE: &[&str] = &[
     "./pkg", "../pkg/init.spec", "../pkg/init.config", ".", "./init", "./index",
 ];
 
+const PROJECT: &[&str] = &[
+    "@pkg/lib", "@pkg/lib.lua", "@pkg", "@up/lib", "@here/mod", "@rootonly/lib", "vendor/lib", "@vendor/lib", "@cfg/lib",
+    "../packages/lib", "../../packages/lib", "./local/lib", "@unknown/lib", "../vendor/lib", "./main",
+];
+
 fn lits_for(layout: &str, quick: bool) -> Vec<&'static str> {
     if layout == "LH" {
         return INIT_LIKE.to_vec();
+    }
+    if layout == "LP" {
+        return PROJECT.to_vec();
     }
     if !quick {
         return COMMON.to_vec();
@@ -488,6 +569,7 @@ fn lits_for(layout: &str, quick: bool) -> Vec<&'static str> {
         "LF" => &["./b", "./b.lua", "../b", "../../b", "/project/src/b", "/abs/b", "@pkg/b", "pkg/b", "@abs/b", "@self/b", "../src/b", "../../../b", "/b"],
         "LG" => &["./b.lua.lua", "./b.lua", "./b.txt", "./b.txt.lua", "./b.", "./.luau", "./.luau.lua", "./init.txt", "./init", "./b", "."],
         "LH" => INIT_LIKE,
+        "LP" => PROJECT,
         "LR" => &["@pkg/b", "pkg/b", "@root/src/a", "@root/pkg/b", "@here/c", "@unknown/b", "./b", "../pkg/b", "../lib/b"],
         _ => COMMON,
     };
@@ -502,6 +584,7 @@ fn srcs_for(layout: &str) -> Vec<&'static str> {
         "LE" => vec!["src/a.lua", "src/init.lua", "main.lua", "src/sub/c.lua", "../up/a.lua", "../up/sub/a.lua", "../up/sub/init.lua"],
         "LH" => vec!["src/pkg/init.spec.luau", "src/pkg/init.server.luau", "src/pkg/init.luau", "src/pkg/index.spec.lua",
                      "src/pkg/index.lua", "src/a.lua", "init.spec.luau"],
+        "LP" => vec!["project/src/main.lua", "project/src/init.luau", "project/src/deep/mod.lua", "project/src/deep/init.lua", "tools/run.lua"],
         "LF" => vec!["/project/src/a.lua", "/project/src/init.lua", "/project/main.lua", "/main.lua", "/init.lua"],
         _ => vec!["src/a.lua", "src/init.lua", "main.lua"],
     }
@@ -517,6 +600,7 @@ fn cfgs_for(layout: &str) -> Vec<&'static str> {
         "LF" => vec!["P5", "U5", "P0", "U0"],
         "LG" => vec!["P0", "U0", "P2"],
         "LH" => vec!["P0", "U0", "P1"],
+        "LP" => vec!["P9", "U9", "PA", "UA"],
         "LR" => vec!["P6", "U6", "P3", "U3"],
         _ => vec![],
     }
@@ -533,6 +617,7 @@ fn pairs_for(layout: &str) -> Vec<(&'static str, &'static str)> {
         "LF" => vec![("P5", "U5"), ("U5", "P5"), ("P0", "U0"), ("U0", "P0")],
         "LG" => vec![("P0", "U0"), ("U0", "P0")],
         "LH" => vec![("P0", "U0"), ("U0", "P0"), ("P1", "U0"), ("U0", "P1")],
+        "LP" => vec![("P9", "U9"), ("U9", "P9"), ("PA", "UA"), ("UA", "PA")],
         "LR" => vec![("P6", "U6"), ("U6", "P6")],
         _ => vec![],
     }
@@ -660,6 +745,19 @@ fn main() {
                     for src in &srcs {
                         for lit in &lits {
                             run_conversion(&ca, &cb, l, src, lit);
+                        }
+                    }
+                }
+                if l.id == "LP" {
+                    let full = (1usize << l.optional.len()) - 1;
+                    for id in cfgs_for(l.id) {
+                        let c = cfg(id);
+                        for src in &srcs {
+                            for lit in &lits {
+                                for mask in [full, 1, 2, 4, 8, 16, 32, 64, 3, 0] {
+                                    run_bundle(&c, l, mask, src, lit);
+                                }
+                            }
                         }
                     }
                 }
